@@ -140,6 +140,66 @@ def suite_policy_reapplied(tier, seed):
     return s
 
 
+def suite_policy_relaxed(tier, seed):
+    s = Suite("oracle:refusal-is-not-remembered")
+    s.rule = ("the mirror image of policy-reapplied: an event is REFUSED by the pipeline (author on the blacklist / on the dynamic deny list / too old "
+              "for oldest_event / a forged copy with the same id and a wrong signature submitted first); then the reason goes away (list entry "
+              "removed, oldest_event raised, the genuine event arrives) and it is submitted again: the pipeline must run again and the event be "
+              "accepted and stored - a refusal leaves nothing behind that answers for the validators later; both backends")
+    rng = rng_for(seed, "c16relax")
+
+    async def one(backend, how):
+        from nostr_relay import dynamic_lists
+        cfg = env.load_config(oldest_event=1000, pubkey_blacklist=[])
+        env.patch_clock()
+        env.set_clock(env.NOW)
+        dynamic_lists.ALLOWED_PUBKEYS.clear()
+        dynamic_lists.DENIED_PUBKEYS.clear()
+        sc = env.Scratch()
+        vals = ["nostr_relay.validators.is_signed", "nostr_relay.validators.is_recent", "nostr_relay.validators.is_author_blacklisted",
+                "nostr_relay.dynamic_lists.is_pubkey_allowed"]
+        st = await (env.sql_storage(sc, validators=vals) if backend == "sql" else env.kv_storage(sc, validators=vals))
+        try:
+            who = rng.randrange(3)
+            e = env.mk_event(who, 1, env.NOW - (5000 if how == "too-old" else 10), [], "refused first %d" % rng.randrange(10 ** 6))
+            first = dict(e)
+            if how == "blacklist":
+                cfg.pubkey_blacklist = [e["pubkey"]]
+            elif how == "denylist":
+                dynamic_lists.DENIED_PUBKEYS.add(bytes.fromhex(e["pubkey"]))
+            elif how == "forged-first":
+                first = dict(e, sig="00" * 64)
+            r1 = await _submit(st, first)
+            r1b = await _submit(st, first)
+            await env.quiesce(st)
+            cfg.pubkey_blacklist = []
+            dynamic_lists.DENIED_PUBKEYS.clear()
+            if how == "too-old":
+                cfg.oldest_event = 100000
+            r2 = await _submit(st, e)
+            await env.quiesce(st)
+            stored = e["id"] in await env.stored_ids(st)
+            return {"first": r1, "first_again": r1b, "second": r2, "stored": stored}
+        finally:
+            dynamic_lists.DENIED_PUBKEYS.clear()
+            env.set_clock(env.NOW)
+            await env.close(st)
+            sc.close()
+    for backend in ("sql", "kv"):
+        for how in ("blacklist", "denylist", "too-old", "forged-first"):
+            for _ in range(1 if tier == "quick" else 4):
+                obs = env.run(one(backend, how))
+                case = {"backend": backend, "refused_because": how}
+                s.case(case, nontrivial=obs["first"].startswith("refused"))
+                if not obs["first"].startswith("refused") or not obs["first_again"].startswith("refused"):
+                    s.violate("policy-not-applied", case, "an event violating the policy was not refused (both times)", observed=obs)
+                elif obs["second"] != "true" or not obs["stored"]:
+                    s.violate("refusal-remembered", case, "after the reason for the refusal had gone the event was answered %r and is %sstored: an earlier "
+                              "refusal decided instead of the validators" % (obs["second"], "" if obs["stored"] else "not "),
+                              expected={"second": "true", "stored": True}, observed=obs)
+    return s
+
+
 def suite_recipe_validator(tier, seed):
     """recipe/homeserver.py is_whitelisted_or_tagged: allowed iff kind 10002, or the author is whitelisted, or some
     p tag names a whitelisted key (documented: 'check that event is tagged with a configurable list of users')"""
@@ -1869,6 +1929,58 @@ def suite_config_defaults(tier, seed, which=("subscription_limit", "max_limit"))
     return s
 
 
+# ------------------------------------------------------------------------------------ C14: only the relay's own assignments count as roles
+def suite_roles_forged(tier, seed, backends=("sql", "kv")):
+    s = Suite("oracle:roles-only-from-the-relay")
+    s.rule = ("role assignments read back exactly as last SET: after set_auth_roles(P, r) a client that may save publishes - under its own key, "
+              "or under a third key - an event shaped like the relay's role record (kind 31494, d=auth:<P>, t=auth, p=<P>, content 'rws'), newer than "
+              "the assignment; the roles of P (get_auth_roles, get_all_auth_roles, and the token a NIP-42 login of P obtains) must still be {r}; the "
+              "same for a pubkey that was never assigned anything (default roles); SQL and LMDB; non-trivial always")
+    rng = rng_for(seed, "c14forged")
+
+    async def one(backend, signer, assigned):
+        import types
+        import aionostr.event as ae
+        env.load_config(authentication={"enabled": True, "actions": {"save": "arw", "query": "r"}})
+        env.patch_clock()
+        sc = env.Scratch()
+        st = await (env.sql_storage(sc) if backend == "sql" else env.kv_storage(sc))
+        saved = ae.time
+        ae.time = types.SimpleNamespace(time=env._now)
+        try:
+            P = env.PUBS[1]
+            env.set_clock(env.NOW)
+            if assigned:
+                await st.set_auth_roles(P, "r")
+                await env.quiesce(st)
+            env.set_clock(env.NOW + 10)
+            forged = env.mk_event(signer, 31494, env.NOW + 10, [["t", "auth"], ["d", "auth:" + P], ["p", P]], "rws")
+            r = await _submit(st, forged)
+            await env.quiesce(st)
+            roles = "".join(sorted(await st.get_auth_roles(P)))
+            allr = {}
+            async for pk, rs in st.get_all_auth_roles():
+                allr[pk] = "".join(sorted(rs))
+            return {"forged_submission": r, "roles": roles, "all": allr.get(P)}
+        finally:
+            ae.time = saved
+            env.set_clock(env.NOW)
+            await env.close(st)
+            sc.close()
+    for backend in backends:
+        for signer in (1, 2):
+            for assigned in (True, False):
+                obs = env.run(one(backend, signer, assigned))
+                case = {"backend": backend, "forged_by": "the pubkey itself" if signer == 1 else "a third key", "assigned_before": assigned}
+                s.case(case, nontrivial=True)
+                want_roles = "r" if assigned else "a"
+                want_all = "r" if assigned else None
+                if obs["roles"] != want_roles or obs["all"] != want_all:
+                    s.violate("roles-readback-stale", case, "a client's kind-31494 event changed what the relay reads back as the roles of a pubkey: %r / %r "
+                              "(expected %r / %r)" % (obs["roles"], obs["all"], want_roles, want_all), observed=obs)
+    return s
+
+
 # ------------------------------------------------------------------------------------ C12
 CAP_SCRIPT = r'''
 import sys, json, asyncio, logging
@@ -2326,13 +2438,47 @@ def suite_second_instance_policies(tier, seed):
 
 
 # ------------------------------------------------------------------------------------ C03 / C04: what is stored and served is what was signed
+async def _frames_for(st, filters, sub_id="fr"):
+    """one REQ through web.start_client; the frames the client receives up to EOSE / NOTICE, each parsed as JSON ("UNPARSABLE" otherwise)"""
+    import falcon
+    from nostr_relay import web
+    from . import relay
+    sent, inbox = [], asyncio.Queue()
+
+    async def ws_send(text):
+        try:
+            sent.append(json.loads(text))
+        except Exception:
+            sent.append("UNPARSABLE")
+
+    async def ws_recv():
+        item = await inbox.get()
+        if item is None:
+            raise falcon.WebSocketDisconnected()
+        return item
+
+    async def ws_close(code=1000):
+        sent.append(["CLOSED", code])
+    task = asyncio.create_task(web.start_client(st, ws_send, ws_recv, ws_close, logging.getLogger("verif.frames"), rate_limiter=relay.NullLimiter(),
+                                                remote_addr="10.6.0.1"))
+    inbox.put_nowait(json.dumps(["REQ", sub_id] + list(filters)))
+    for _ in range(5000):
+        await asyncio.sleep(0.002)
+        if any(isinstance(f, list) and f and f[0] in ("EOSE", "NOTICE", "CLOSED") for f in sent) or task.done():
+            break
+    inbox.put_nowait(None)
+    await asyncio.wait([task], timeout=10)
+    return sent
+
+
 def suite_served_is_signed(tier, seed):
     """accepted events over many kinds and tag shapes come back field for field (stored REQ, get_event, live) and still
     verify with the harness's own NIP-01 hash; catches rewriting of an event after verification"""
     s = Suite("oracle:served-event-is-the-signed-event")
     s.rule = ("validly signed events over kinds {0,1,3,5,7,10002,30000,30023} x tag shapes (bare [d], [d,''], upper-case hex in e/p values, integers, "
               "unicode, empty strings, duplicate tags, long values) are submitted; each accepted event is read back through a stored REQ, get_event "
-              "and a live push: every field equal to what was sent and id = sha256 of the NIP-01 serialization of the served fields; both backends")
+              "a live push and the EVENT frame a websocket client receives for a REQ by id (parsed as JSON): every field equal to what was sent and "
+              "id = sha256 of the NIP-01 serialization of the served fields; both backends")
     rng = rng_for(seed, "served")
     H = "AB" * 32
     shapes = [[], [["d"]], [["d", ""]], [["d", "x"], ["d", "y"]], [["e", H], ["p", H.lower()]], [["p", "Ab" * 32]], [["t", ""], ["t", ""]],
@@ -2366,6 +2512,12 @@ def suite_served_is_signed(tier, seed):
             views["stored"] = env.ev_obj(got[0]) if got else None
             g = await st.get_event(e["id"])
             views["get_event"] = env.ev_obj(g) if g else None
+            # ... and what a websocket client actually receives: the EVENT frame of a REQ for that id, parsed as JSON
+            fr = await _frames_for(st, [{"ids": [e["id"]]}])
+            evf = [f[2] for f in fr if isinstance(f, list) and len(f) == 3 and f[0] == "EVENT" and isinstance(f[2], dict)]
+            if any(f == "UNPARSABLE" for f in fr):
+                bad.append({"kind": k, "tags": sh, "path": "frame", "sent_tags": e["tags"], "served_tags": "frame is not JSON", "rehash_ok": False})
+            views["frame"] = evf[0] if evf else None
             for t in list(st._notify_sub_tasks):
                 try:
                     await t
@@ -2661,6 +2813,8 @@ def registry():
         "oracle:publishing-while-connections-churn": suite_publish_during_churn,
         "oracle:ack-agrees-for-integer-tag-items": suite_int_tag_items,
         "oracle:limits-default-when-not-configured": suite_config_defaults,
+        "oracle:roles-only-from-the-relay": suite_roles_forged,
+        "oracle:refusal-is-not-remembered": suite_policy_relaxed,
         "oracle:limit-cap-plain-subscribe": suite_cap_plain_subscribe,
         "oracle:announce-every-accepted-event": suite_announce_all_accepted,
         "oracle:removed-unreachable-after-read": suite_removed_unreachable_after_read,
